@@ -55,10 +55,7 @@ def run(ctx: Context, rep) -> None:
     rep.info("C12.forward", f"{len(funcs)} selection-carrying functions, "
              f"{edges} call edges among them: " +
              ", ".join(sorted(f.qualname for f in funcs)))
-    if rep.count("C12.forward") < 20:
-        raise AnalysisError(
-            f"C12.forward matched only {rep.count('C12.forward')} (edge, "
-            f"option) instances, floor is 20")
+    rep.floor("C12.forward matched only", rep.count("C12.forward"), 20, "instances")
 
     rep.rule(
         "C12.delegate",
@@ -90,8 +87,7 @@ def run(ctx: Context, rep) -> None:
                                message=f"`{p}` is accepted by "
                                f"{a.qualname} but the delegate "
                                f"{b.qualname} has no such parameter")
-    if n_del < 3 and not rep.violations:
-        raise AnalysisError(f"C12.delegate: {n_del} delegation edges, floor 3")
+    rep.floor("C12.delegate", n_del, 3, "instances")
 
     rep.rule(
         "C12.stored",
